@@ -8,7 +8,7 @@ Oracle (independent of the library): the harness knows which code it gave to whi
 every render, each component-endpoint URL found in the `<script type="application/json" data-djc>` blob
 (decoded the way the client-side manager does: base64 -> URL or tag -> src/href) is fetched with
 django.test.Client and must give 200 + exactly that class's stripped js/css + the matching content type.
-A battery of malformed variants of every emitted URL (unknown hash / kind / input hash, extra dots,
+A battery of malformed variants of one emitted URL per render (unknown hash / kind / input hash, extra dots,
 slashes, percent escapes, non-GET methods) and generated free-form requests are judged by `judge()`:
 404 for anything that is not a well-formed URL of a live class, 405 for non-GET, never >= 500, never a
 body that is not the addressed class's own code.
@@ -41,8 +41,8 @@ RULE = (
     "middleware; layout head+body | dependency placeholders | bare | none; nested or siblings) / clear media cache / "
     "evict one cache entry / refetch all earlier URLs / free-form request (hash x input hash x kind x separators x "
     "prefix x suffix x method), under the library's default media cache or a user-named unbounded locmem cache. "
-    "After every render each emitted endpoint URL is fetched (strict oracle) and a fixed battery of ~50 malformed "
-    "variants + 7 non-GET methods per URL is sent. Part 'churn': histories that define up to 400 classes, each step "
+    "After every render each emitted endpoint URL is fetched (strict oracle) and, for one announced URL chosen by the "
+    "generated `probe`, a fixed battery of 62-75 requests (malformed variants + 7 non-GET methods) is sent. Part 'churn': histories that define up to 400 classes, each step "
     "rendering an old class (lag steps back) together with a fresh one and fetching all announced URLs. "
     "Non-trivial (hist) = >= 2 classes had URLs checked and some class had a URL announced+checked in two renders "
     "with a cache clear or an effective eviction in between; (churn) = an older class is re-rendered after >= 1 "
@@ -68,7 +68,6 @@ PREFIX = "/components/cache/"
 CT = {"js": "text/javascript", "css": "text/css"}
 KINDS = ("js", "css")
 NAMES = ["Card", "CardList", "Card_", "Card_1a2b3c", "card", "C", "Table", "Tabl", "_Card", "CardCard", "Card_js", "js"]
-VARIANTS = [None, "empty", "ws", "plain", "padded", "rich", "same", "file"]
 NON_GET = ["POST", "PUT", "DELETE", "PATCH", "OPTIONS", "HEAD", "TRACE"]
 
 _case_no = [0]
@@ -659,7 +658,7 @@ def mutate_hash(H, how):
     }[how]
 
 
-def run_hist(case, col=None):
+def run_hist(case):
     """Run one history. -> (fails, Stats)."""
     st = Stats()
     fails = []
@@ -669,7 +668,6 @@ def run_hist(case, col=None):
     known_inputs = {}  # idx -> {kind: input hash}
     last_checked = {}  # idx -> step of the last render that announced+checked a URL of idx
     last_wipe = -1  # step of the last clear / effective eviction
-    evicted_since = {}
     try:
         with media_cache(case.get("cache", "default")) as cache:
             for step, op in enumerate(case["ops"]):
